@@ -71,6 +71,8 @@ var ghost struct {
 
 	ioColor int // 1 while a colour switched on by echoColor / echoBgColor / echoColorAndBg has not been reset (C06)
 
+	ioDot string // what the latest strings.DotPrefix call returned (C05: dotted keys of group members)
+
 	ioKeyed int // 1 once the key of the attribute serializeAttrs is printing has been written (C05)
 
 	ioSeq int // the sources of attributes collectArgs has consulted so far, as decimal digits in call order: 1 context, 2 logger chain, 3 call arguments (C07)
@@ -2331,7 +2333,7 @@ func specTellable(m LogWriter) bool {
 //@   props C02 C05 C06 C07 C09
 //@   ensures [C06.attrs-reset] pc.noColor || ghost.ioColor == 0
 //@   auto
-//@   nokeeps PrintCtx.prefix, PrintCtx.inGroupedMode, ghost.ioKeyed, ghost.ioColor
+//@   nokeeps PrintCtx.prefix, PrintCtx.inGroupedMode, ghost.ioKeyed, ghost.ioColor, ghost.ioDot
 //@   keeps PrintCtx.prefix except pc
 //@   keeps PrintCtx.inGroupedMode except pc
 //@   requires [C09.ungrouped] !pc.inGroupedMode
@@ -2340,13 +2342,15 @@ func specTellable(m LogWriter) bool {
 //@   at call github.com/hedzr/logg/slog.dedupeSlice[github.com/hedzr/logg/slog.Attrs github.com/hedzr/logg/slog.Attr] assert [C07.unique] callee.x == kvps
 //@   at call (Attr).Key effect ghost.ioKeyed = 0
 //@   at call (*PrintCtx).pcAppendStringKey effect ghost.ioKeyed = 1
+//@   at call github.com/hedzr/logg/slog/internal/strings.DotPrefix assert [C05.dotted-args] same(callee.leaf, ghost.ioKey1) && len(callee.prefix) == 1 && same(callee.prefix[0], prefix)
+//@   at call (*PrintCtx).appendValue assert [C05.dotted] pc.jsonMode || same(pc.prefix, ghost.ioDot)
 //@   at call (*PrintCtx).appendValue assert [C05.keyed] ghost.ioKeyed == 1 || typeis(v, groupedValue) || old(pc.inGroupedMode)
 //@   loop 1 invariant [C09.restore] same(pc.prefix, prefix) && !pc.inGroupedMode && same(prefix, old(pc.prefix))
 
 //@ func (*PrintCtx).appendValue
 //@   props C02 C09
 //@   auto
-//@   nokeeps PrintCtx.prefix, PrintCtx.inGroupedMode, ghost.ioKeyed, ghost.ioColor
+//@   nokeeps PrintCtx.prefix, PrintCtx.inGroupedMode, ghost.ioKeyed, ghost.ioColor, ghost.ioDot
 //@   keeps PrintCtx.prefix except s
 //@   keeps PrintCtx.inGroupedMode except s
 //@   requires [C09.ungrouped] !s.inGroupedMode
@@ -2431,7 +2435,7 @@ func specTellable(m LogWriter) bool {
 //@ func (*kvp).SerializeValueTo
 //@   props C02 C09
 //@   auto
-//@   nokeeps PrintCtx.prefix, PrintCtx.inGroupedMode, ghost.ioKeyed, ghost.ioColor
+//@   nokeeps PrintCtx.prefix, PrintCtx.inGroupedMode, ghost.ioKeyed, ghost.ioColor, ghost.ioDot
 //@   keeps PrintCtx.prefix except pc
 //@   keeps PrintCtx.inGroupedMode except pc
 //@   ensures [C09.ungrouped] !pc.inGroupedMode
@@ -2440,7 +2444,7 @@ func specTellable(m LogWriter) bool {
 //@   props C02 C07 C09
 //@   at call serializeAttrs assert [C07.group-sorted] callee.pc == pc && callee.kvps == s.items
 //@   auto
-//@   nokeeps PrintCtx.prefix, PrintCtx.inGroupedMode, ghost.ioKeyed, ghost.ioColor
+//@   nokeeps PrintCtx.prefix, PrintCtx.inGroupedMode, ghost.ioKeyed, ghost.ioColor, ghost.ioDot
 //@   keeps PrintCtx.prefix except pc
 //@   keeps PrintCtx.inGroupedMode except pc
 //@   requires [C09.ungrouped] !pc.inGroupedMode
@@ -2450,7 +2454,7 @@ func specTellable(m LogWriter) bool {
 //@   props C02 C07 C09
 //@   at call serializeAttrs assert [C07.group-sorted] callee.pc == pc && callee.kvps == s
 //@   auto
-//@   nokeeps PrintCtx.prefix, PrintCtx.inGroupedMode, ghost.ioKeyed, ghost.ioColor
+//@   nokeeps PrintCtx.prefix, PrintCtx.inGroupedMode, ghost.ioKeyed, ghost.ioColor, ghost.ioDot
 //@   keeps PrintCtx.prefix except pc
 //@   keeps PrintCtx.inGroupedMode except pc
 //@   requires [C09.ungrouped] !pc.inGroupedMode
@@ -2483,27 +2487,11 @@ func specTellable(m LogWriter) bool {
 //@   props C02
 //@   auto
 
-//@ func (*PrintCtx).pcAppendColon
-//@   props C02
-//@   auto
-
-//@ func (*PrintCtx).pcAppendComma
-//@   props C02
-//@   auto
-
-//@ func (*Entry).printLoggerName
-//@   props C02
-//@   auto
-
 //@ func (*Entry).printSeverity
 //@   props C02
 //@   auto
 
 //@ func (colorizeToolS).wrapRune
-//@   props C02
-//@   auto
-
-//@ func (*Entry).printMsg
 //@   props C02
 //@   auto
 
@@ -2672,10 +2660,6 @@ func specTellable(m LogWriter) bool {
 //@   auto
 
 //@ func (*PrintCtx).AddPrefixedString
-//@   props C02
-//@   auto
-
-//@ func (*Entry).printRestLinesOfMsg
 //@   props C02
 //@   auto
 
